@@ -114,6 +114,8 @@ impl Walrus {
 
         // Important: release the per-column lock; we'll reacquire each iteration
         drop(info);
+        #[cfg(walrus_verif)]
+        crate::wal::verif::sched_point("rn_after_hydrate");
 
         loop {
             // Reacquire column lock at the start of each iteration
@@ -156,6 +158,8 @@ impl Walrus {
 
                         // Drop the column lock before touching the index to avoid lock inversion
                         drop(info);
+                        #[cfg(walrus_verif)]
+                        crate::wal::verif::sched_point("rn_sealed_before_persist");
                         if checkpoint {
                             if let Some((idx_val, off_val)) = maybe_persist {
                                 if let Ok(mut idx_guard) = self.read_offset_index.write() {
@@ -191,6 +195,8 @@ impl Walrus {
             // Tail path
             let tail_snapshot = (info.tail_block_id, info.tail_offset);
             drop(info);
+            #[cfg(walrus_verif)]
+            crate::wal::verif::sched_point("rn_tail_after_snapshot");
 
             let writer_arc = {
                 let map = self.writers.read().map_err(|_| {
@@ -202,6 +208,8 @@ impl Walrus {
                 }
             };
             let (active_block, written) = writer_arc.snapshot_block()?;
+            #[cfg(walrus_verif)]
+            crate::wal::verif::sched_point("rn_after_writer_snapshot");
 
             // If persisted tail points to a different block and that block is now sealed in chain, fold it
             // Reacquire column lock for folding/rebasing decisions
@@ -262,6 +270,8 @@ impl Walrus {
                 }
             }
             drop(info);
+            #[cfg(walrus_verif)]
+            crate::wal::verif::sched_point("rn_before_tail_read");
 
             // Choose the best known tail offset: prefer in-memory snapshot for current active block
             let (tail_block_id, mut tail_off) = match persisted_tail {
@@ -286,6 +296,8 @@ impl Walrus {
                 match active_block.read(tail_off) {
                     Ok((entry, consumed)) => {
                         let new_off = tail_off + consumed as u64;
+                        #[cfg(walrus_verif)]
+                        crate::wal::verif::sched_point("rn_after_tail_read");
                         // Reacquire column lock to update in-memory progress, then decide persistence
                         let mut info = info_arc.write().map_err(|_| {
                             io::Error::new(io::ErrorKind::Other, "col info write lock poisoned")
@@ -404,6 +416,8 @@ impl Walrus {
             }
         };
 
+        #[cfg(walrus_verif)]
+        crate::wal::verif::sched_point("br_after_writer_snapshot");
         // 1) Prepare state (Chain + Position)
         let mut _held_arc: Option<Arc<RwLock<ColReaderInfo>>> = None;
 
@@ -868,6 +882,8 @@ impl Walrus {
             drop(info_guard.take().unwrap());
         }
 
+        #[cfg(walrus_verif)]
+        crate::wal::verif::sched_point("br_before_io");
         // 3) Read ranges via io_uring (FD backend) or mmap
         #[cfg(target_os = "linux")]
         let buffers = if USE_FD_BACKEND.load(Ordering::Relaxed) {
@@ -1102,6 +1118,8 @@ impl Walrus {
             }
         }
 
+        #[cfg(walrus_verif)]
+        crate::wal::verif::sched_point("br_before_commit");
         // 5) Commit progress (optional)
         if entries_parsed > 0 {
             enum PersistTarget {
